@@ -75,6 +75,12 @@ def gen_cases(ctx):
         if rng.random() < 0.2:
             from harness import corr_c12
             corr_c12.make_flaky(rng, w, o)
+        if any(m.get("importError") for m in w["modules"].values()) and rng.random() < 0.5:
+            # a module that cannot be imported is "something went wrong" whatever the selection of tests is
+            if w["tests"] and rng.random() < 0.6:
+                o["test"] = ["t%d " % rng.choice(w["tests"])["id"]]
+            else:
+                o["only_level"] = rng.choice([2, 3])
         cases.append(cw.Case(w, o))
     # children that write raw fd-2 noise of every kind around a bad outcome
     for i in range(12 if ctx.quick() else 300):
